@@ -75,8 +75,12 @@ pub fn worker(a: &WorkerArgs) {
         }
         if let Some(v) = v {
             out.violations_total += 1;
+            let hang = v.signature == "hang";
             if out.violations.len() < 64 {
                 out.violations.push((i, v.invariant, v.signature));
+            }
+            if hang {
+                break; // one is enough; every further one would cost the full time budget
             }
         }
         if out.samples.len() < 2 && a.offset == 0 {
@@ -246,6 +250,18 @@ pub fn run_here(scn: &Scenario, transcript: bool) -> (Option<Violation>, RunStat
 pub fn run_once(scn: &Scenario, transcript: bool) -> (Option<Violation>, RunStats) {
     match crate::iso::in_child(|| run_here(scn, transcript)) {
         Ok(r) => r,
+        Err(e) if e.starts_with("timeout") => {
+            // the code under test did not terminate: no property holds for a run that never ends
+            let mut st = RunStats::new(false);
+            st.bump("scenario_timed_out");
+            let v = Violation {
+                invariant: format!("{}.run_terminates", scn.prop()),
+                signature: "hang".into(),
+                detail: format!("{} (a simulated execution of the code under test loops or blocks forever)", e),
+                step: 0,
+            };
+            (Some(v), st)
+        }
         Err(e) => {
             // the scenario process itself died (abort / stack overflow in the code under test):
             // a totality matter, counted, not judged here
@@ -266,6 +282,9 @@ fn sig_kind(sig: &str) -> &str {
 /// Greedy structural shrinking while the same invariant keeps failing *in the same way*
 /// (same signature kind), so that one class of violation does not drift into another.
 pub fn minimise(scn: Scenario, invariant: &str, budget: &mut u64) -> Scenario {
+    if invariant.ends_with(".run_terminates") {
+        return scn; // every attempt would cost the full time budget
+    }
     let kind: Option<String> = run_once(&scn, false).0.map(|v| sig_kind(&v.signature).to_string());
     let mut cur = scn;
     loop {
@@ -319,7 +338,8 @@ pub fn replay(path: &Path) -> i32 {
             return 2;
         }
     };
-    let (v, st) = run_here(&rf.scenario, true);
+    crate::world::sandbox_enter();
+    let (v, st) = run_once(&rf.scenario, true);
     println!("--- source under test ---\n{}\n--- transcript ---", rf.rendered_source);
     for l in &st.transcript {
         println!("{}", l);
